@@ -381,7 +381,7 @@ def c02_r3(ctx):
         f = prog.func(qn)
         ctx.saw(f)
         uses = []
-        for c in norm.calls_in(f.node):
+        for c in norm.calls_in(f.node, include_nested_defs=True):
             if norm.call_name(c) in ("match", "search", "findall", "fullmatch"):
                 r = norm.deep_canon(norm.receiver(c), f.node)
                 if "_pattern(" in r and "_segment_pattern" not in r:
@@ -431,6 +431,9 @@ def c02_r4(ctx):
         raise AnalysisError("clean_files signature changed: %s" % params)
     fa = guards.Facts(f, textfn=lambda e: norm.deep_canon(e, f.node))
     g = fa.g
+    from .. import paths as P
+    textfn = lambda e: norm.deep_canon(e, f.node)
+    localfns = P.local_functions(f.node)
     adds = []
     deletes = []
     for n in g.nodes:
@@ -440,35 +443,58 @@ def c02_r4(ctx):
                     adds.append((n, c))
                 if norm.call_name(c) == "delete_file":
                     deletes.append((n, c))
-    ctx.ob(f, len(adds) >= 2 and len(deletes) == 1, "two guarded additions to the delete set and one delete loop",
-           detail="%d add sites, %d delete sites" % (len(adds), len(deletes)))
+    # selection sites: `<set>.add(name)` statements in the scan loop, and comprehensions over the storage listing
+    selections = []   # (where, collection name or None, [path, ...]) ; a path = frozenset of (pol, text)
     for n, c in adds:
-        facts = fa.at(n) or frozenset()
-        true_facts = [t for (p, t) in facts if p == "T"]
-        false_facts = [t for (p, t) in facts if p == "F"]
-        # (comparison facts are stored in positive form: `a != b` true is recorded as `a == b` false)
-        toc_ok = any("_pattern(indexname).match(" in t and ".group(" not in t and "_segment_pattern" not in t for t in true_facts) and \
-            any(re.match(r"^\((gen == int\(.*_pattern\(indexname\)\.match\(.*\)\.group\(1\)\)|int\(.*_pattern\(indexname\)\.match\(.*\)\.group\(1\)\) == gen)\)$", t)
-                for t in false_facts)
-        seg_ok = any("_segment_pattern(indexname).match(" in t and ".group(" not in t for t in true_facts) and \
-            any(" in " in t and "_segment_pattern(indexname).match(" in t.split(" in ")[0]
-                and "segment_id()" in t.split(" in ", 1)[1] and "segments" in t.split(" in ", 1)[1]
-                for t in false_facts)
-        ctx.ob(f, toc_ok or seg_ok, "deletion candidate is guarded by (toc & gen differs) or (segment & id unlisted)",
-               detail="facts on entry: %s" % sorted(facts), loc=ctx.nodeloc(f, n.ast))
+        entries = fa.per_entry(n) or [fa.at(n) or frozenset()]
+        selections.append((n.ast, norm.root_name(norm.receiver(c), f.node), [frozenset(e) for e in entries]))
+    for st in ast.walk(f.node):
+        if isinstance(st, ast.Assign) and len(st.targets) == 1 and isinstance(st.targets[0], ast.Name):
+            comp = None
+            v = st.value
+            if isinstance(v, (ast.SetComp, ast.ListComp)):
+                comp = v
+            elif isinstance(v, ast.Call) and norm.call_name(v) in ("set", "list", "frozenset", "sorted") and len(v.args) == 1 \
+                    and isinstance(v.args[0], (ast.GeneratorExp, ast.ListComp, ast.SetComp)):
+                comp = v.args[0]
+            if comp is None or len(comp.generators) != 1:
+                continue
+            gen = comp.generators[0]
+            if textfn(gen.iter) not in ("storage", "storage.list()") or not isinstance(gen.target, ast.Name) or norm.canon(comp.elt) != gen.target.id:
+                continue
+            cond = ast.BoolOp(op=ast.And(), values=list(gen.ifs)) if len(gen.ifs) > 1 else (gen.ifs[0] if gen.ifs else ast.Constant(value=True))
+            selections.append((st, st.targets[0].id, P.true_paths(cond, textfn, localfns)))
+    ctx.ob(f, bool(selections) and len(deletes) == 1, "two guarded additions to the delete set and one delete loop",
+           detail="%d selection sites, %d delete sites" % (len(selections), len(deletes)))
+    for where, coll, pths in selections:
+        bad = None
+        for facts in pths:
+            true_facts = [t for (p, t) in facts if p == "T"]
+            false_facts = [t for (p, t) in facts if p == "F"]
+            # (comparison facts are stored in positive form: `a != b` true is recorded as `a == b` false)
+            toc_ok = any("_pattern(indexname).match(" in t and ".group(" not in t and "_segment_pattern" not in t for t in true_facts) and \
+                any(re.match(r"^\((gen == int\(.*_pattern\(indexname\)\.match\(.*\)\.group\(1\)\)|int\(.*_pattern\(indexname\)\.match\(.*\)\.group\(1\)\) == gen)\)$", t)
+                    for t in false_facts)
+            seg_ok = any("_segment_pattern(indexname).match(" in t and ".group(" not in t for t in true_facts) and \
+                any(" in " in t and "_segment_pattern(indexname).match(" in t.split(" in ")[0]
+                    and "segment_id()" in t.split(" in ", 1)[1] and "segments" in t.split(" in ", 1)[1]
+                    for t in false_facts)
+            if not (toc_ok or seg_ok):
+                bad = facts
+        ctx.ob(f, bool(pths) and bad is None, "deletion candidate is guarded by (toc & gen differs) or (segment & id unlisted)",
+               detail="a way to select a file: %s" % sorted(bad) if bad is not None else "", loc=ctx.nodeloc(f, where))
     # the deleted names come from the guarded set only
     for n, c in deletes:
         arg = c.args[0] if c.args else None
         src_ok = False
         if isinstance(arg, ast.Name):
-            # loop variable over the set the adds fill
+            # loop variable over the set the selections fill
             for fn in ast.walk(f.node):
                 if isinstance(fn, ast.For) and isinstance(fn.target, ast.Name) and fn.target.id == arg.id:
                     it = norm.root_name(fn.iter, f.node)
-                    src_ok = any(norm.root_name(norm.receiver(ac), f.node) == it for _, ac in adds)
+                    src_ok = any(coll == it for _, coll, _ in selections)
         ctx.ob(f, src_ok, "delete_file is applied only to names collected in the guarded set",
                loc=ctx.nodeloc(f, c))
-    # caller passes its own generation and the just-written list
     ct = prog.method("writing.SegmentWriter", "_commit_toc", inherited=False)
     ctx.saw(ct)
     tocs = [c for c in norm.calls_in(ct.node) if norm.call_name(c) == "TOC"]
@@ -492,7 +518,11 @@ def c02_r4(ctx):
            detail=detail)
     # toc.write targets the index storage and name
     writes = [c for c in find_calls(ct, "write")]
-    okw = len(writes) == 1 and [norm.canon(a, norm.aliases(ct.node)) for a in writes[0].args] == ["self.storage", "self.indexname"]
+    okw = False
+    if len(writes) == 1:
+        mw, pw = bind_args(writes[0], prog.method("index.TOC", "write", inherited=False))
+        okw = bool(mw) and not pw and norm.canon(mw.get("storage"), norm.aliases(ct.node)) == "self.storage" and \
+            norm.canon(mw.get("indexname"), norm.aliases(ct.node)) == "self.indexname"
     ctx.ob(ct, okw, "toc.write(self.storage, self.indexname)")
 
 
